@@ -84,6 +84,9 @@ func NewListener(cfg *service.Listener, stats *DownstreamStats, logger log.Logge
 }
 
 func (l *listener) Serve() error {
+	// NOTE: Stop waits for it, whichever way Serve returns.
+	defer close(l.done)
+
 	ip := l.cfg.GetAddress().GetIp()
 	port := l.cfg.GetAddress().GetPort()
 	address := fmt.Sprintf("%s:%d", ip, port)
@@ -118,15 +121,25 @@ func (l *listener) Serve() error {
 		}
 	}
 
+	l.mu.Lock()
 	l.ln = ln
+	l.mu.Unlock()
 	verifpoint.HitArg("listener.serve.after-bind", l)
+	// Stop or Drain may have been called while binding, when there was no
+	// listener to close yet.
+	select {
+	case <-l.quit:
+		ln.Close()
+	case <-l.drain:
+		ln.Close()
+	default:
+	}
 	l.Infof("start serving at %s", ln.Addr().String())
 	l.serve()
 	l.Infof("stop serving at %s, waiting all conns done", ln.Addr().String())
 
 	l.connsWg.Wait()
 	l.Infof("all conns done")
-	close(l.done)
 	return nil
 }
 
@@ -249,19 +262,26 @@ func (l *listener) connsLimit() bool {
 	return true
 }
 
+func (l *listener) listener() net.Listener {
+	l.mu.Lock()
+	defer l.mu.Unlock()
+	return l.ln
+}
+
 func (l *listener) Address() string {
-	if l.ln == nil {
+	ln := l.listener()
+	if ln == nil {
 		return ""
 	}
-	return l.ln.Addr().String()
+	return ln.Addr().String()
 }
 
 func (l *listener) Drain() error {
 	l.drainOnce.Do(func() {
 		close(l.drain)
 	})
-	if l.ln != nil {
-		l.ln.Close()
+	if ln := l.listener(); ln != nil {
+		ln.Close()
 	}
 	return nil
 }
@@ -274,10 +294,11 @@ func (l *listener) Stop() error {
 	l.mu.Lock()
 	conns := l.conns
 	l.conns = nil
+	ln := l.ln
 	l.mu.Unlock()
 
-	if l.ln != nil {
-		l.ln.Close()
+	if ln != nil {
+		ln.Close()
 	}
 	for conn := range conns {
 		conn.Close()
